@@ -412,7 +412,7 @@ def main(argv):
         modules=['Alpaqa.Props.C01', 'Alpaqa.Props.C01_Alm', 'Alpaqa.Props.C01_C04', 'Alpaqa.Props.C01_Zerofpr',
                  'Alpaqa.Props.C01_Pantr', 'Alpaqa.Props.C01_Pantr_C04', 'Alpaqa.Props.C01_Fista',
                  'Alpaqa.Props.C01_Zerofpr_C04', 'Alpaqa.Props.PantrNewtonTR', 'Alpaqa.Props.C01_Fista_C04',
-                 'Alpaqa.Props.ZerofprDirections', 'Alpaqa.Props.C01_Zerofpr_Providers_C04'], driver=None,
+                 'Alpaqa.Props.ZerofprDirections', 'Alpaqa.Props.C01_Zerofpr_Providers_C04', 'Alpaqa.Props.SlbfgsPerCall'], driver=None,
         extra_sources=['Alpaqa/Gen/C15.lean', 'Alpaqa/Gen/C06.lean', 'Alpaqa/Gen/C01.lean', 'Alpaqa/Proofs/VecLemmas.lean',
                        'Alpaqa/Proofs/C01Panoc.lean', 'Alpaqa/Proofs/C01PanocOn.lean', 'Alpaqa/Proofs/PanocInvOn.lean', 'Alpaqa/Proofs/PanocFuel.lean', 'Alpaqa/Proofs/PanocSized.lean', 'Alpaqa/Proofs/C07.lean', 'Alpaqa/Proofs/C07Run.lean',
                        'Alpaqa/Proofs/PanocInv.lean', 'Alpaqa/Model/Panoc.lean', 'Alpaqa/Model/C07.lean', 'Alpaqa/Props/C04.lean',
